@@ -16,7 +16,7 @@
 (*   i  import    p  (s)  a snippet header    s  s  the snippet's name     *)
 (*   f  inc.conf  an existing file ("dirf argf")                           *)
 (*   q  ""        the empty token                                          *)
-(*   e  {$VERIF_E} an environment placeholder                              *)
+(*   e  {$VERIF_E} an environment placeholder    z  one of an unset variable *)
 (* A case is written as two letters per token: kind, then n (starts a new  *)
 (* line) or _ (same line).                                                 *)
 (***************************************************************************)
